@@ -283,6 +283,8 @@ pub fn replay(opts: &Opts) -> i32 {
     "loop" => crate::loop_mon::replay(&rep, &mut out),
     "systemd" => crate::systemd_mon::replay(&rep, &mut out),
     "wire" => crate::wire_mon::replay(&rep, &mut out),
+    "convert" => crate::convert_mon::replay(&rep, &mut out),
+    "load" => crate::load_mon::replay(&rep, &mut out),
     _ => { eprintln!("replay: unknown engine {:?}", engine); return 2; }
   };
   if !ok { eprintln!("replay: malformed replay object"); return 2; }
